@@ -81,4 +81,113 @@ theorem nlike_correct (p s : List Char) : likeModel true p s = !(like p s) := by
 theorem like_model_correct (p s : List Char) : likeModel false p s = like p s := by
   simp [likeModel, classifyLike_eval, like]
 
+/-- **Utf8View gives the same answers**: the `StringViewArray` arms of
+`Predicate::evaluate_array` (`prefix_bytes_iter` / `suffix_bytes_iter` + `equals_bytes`, which
+look only at the first / last `needle.len()` bytes) agree with the generic arms used for Utf8,
+LargeUtf8 and dictionary values — for every predicate, byte kernel and haystack. -/
+theorem view_path_agrees (eqv : Char → Char → Bool) (pr : Pred) (h : List Char) :
+    pr.evalView eqv h = pr.eval eqv h := evalView_eq_eval eqv pr h
+
+/-! ## (3) ILIKE: the ASCII fast paths -/
+
+/-- `ilike` with an array pattern (`Predicate::ilike(p, false)`) always uses the translated
+regular expression, which denotes ILIKE w.r.t. the engine's case-folding relation `eqv`. -/
+theorem ilike_array_pattern (eqv : Char → Char → Bool) (p s : List Char) :
+    (classifyILike p false).eval eqv s = likeMatchG eqv (tokenise p) s := by
+  simp [classifyILike, Pred.eval, regexLike_isMatch]
+
+/-- **The ASCII fast paths of `ilike` are sound.**  When the pattern is ASCII and every haystack
+of the array is ASCII (the `is_ascii` guards), `IEqAscii` / `IStartsWithAscii` /
+`IEndsWithAscii` — byte comparisons up to ASCII case — give exactly what the case-insensitive
+regular expression would give, for *any* engine folding relation `eqv` that restricted to ASCII
+is "equal up to ASCII case" (Unicode simple case folding relates an ASCII letter only to its
+other-case ASCII counterpart *among ASCII characters*; K/KELVIN SIGN and s/LONG S need a
+non-ASCII character, which the guards exclude). -/
+theorem ilike_ascii_fast_path (eqv : Char → Char → Bool)
+    (hfold : ∀ a b : Char, a.toNat < 128 → b.toNat < 128 → eqv a b = asciiFoldEq a b)
+    (p s : List Char) (hp : isAsciiStr p = true) (hs : isAsciiStr s = true) :
+    (classifyILike p true).eval eqv s = likeMatchG eqv (tokenise p) s := by
+  rw [like_fold_ascii eqv hfold p s hp hs]
+  apply classifyILike_fast_ascii eqv p s hp hs
+  rw [regexLike_isMatch, like_fold_ascii eqv hfold p s hp hs]
+
+example : isAsciiStr ['K', 'e', '%'] = true ∧ isAsciiStr ['k', 'E', 'l', 'v', 'i', 'n'] = true := by decide
+
+/-- … and therefore scalar and array patterns agree on ASCII data. -/
+theorem ilike_scalar_eq_array (eqv : Char → Char → Bool)
+    (hfold : ∀ a b : Char, a.toNat < 128 → b.toNat < 128 → eqv a b = asciiFoldEq a b)
+    (p s : List Char) (hp : isAsciiStr p = true) (hs : isAsciiStr s = true) :
+    (classifyILike p true).eval eqv s = (classifyILike p false).eval eqv s := by
+  rw [ilike_ascii_fast_path eqv hfold p s hp hs, ilike_array_pattern]
+
+/-- the `is_ascii()` guards are character-level statements: the bytes of a string are all
+`< 0x80` iff all its scalar values are -/
+theorem is_ascii_bytes_iff_chars (s : List Char) : bytesAscii (encode s) = isAsciiStr s :=
+  bytesAscii_encode s
+
+/-! ## (4) substring -/
+
+/-- **`substring` on string arrays returns valid UTF-8 or an error**: whenever the boundary
+checks of `byte_substring` / `string_view_substring` pass, the returned bytes are the encoding
+of a contiguous run of the input's characters — for every start (positive, zero, negative,
+beyond the string) and every length. -/
+theorem substring_valid_or_error (s : List Char) (start : Int) (len : Option Nat) :
+    byteSubstring true (encode s) start len = .err ∨
+    ∃ m, byteSubstring true (encode s) start len = .ok (encode m) ∧ m <:+: s := by
+  cases h : byteSubstring true (encode s) start len with
+  | err => exact Or.inl rfl
+  | ok r =>
+    obtain ⟨m, hm, hin⟩ := byteSubstring_valid s start len r h
+    exact Or.inr ⟨m, by rw [hm], hin⟩
+
+example : byteSubstring true (encode ['a', 'é', 'b']) 1 (some 1) = .err := by decide
+example : byteSubstring true (encode ['a', 'é', 'b']) (-3) (some 2) = .ok (encode ['é']) := by decide
+
+/-- **`substring` returns the clamped byte range** (string and binary arrays alike): when no
+error is raised the result is bytes `[clamp(start), clamp(start) + len)` of the value, with
+negative `start` counted from the end and everything clamped to the value. -/
+theorem substring_range (check : Bool) (v : List Nat) (start : Int) (len : Option Nat) (r : List Nat)
+    (h : byteSubstring check v start len = .ok r) : r = substrSpec v start len :=
+  byteSubstring_eq_spec check v start len r h
+
+/-- binary arrays are never rejected -/
+theorem substring_binary_total (v : List Nat) (start : Int) (len : Option Nat) :
+    byteSubstring false v start len = .ok (substrSpec v start len) := by
+  cases h : byteSubstring false v start len with
+  | err => simp [byteSubstring] at h
+  | ok r => rw [byteSubstring_eq_spec false v start len r h]
+
+/-- **`substring_by_char`, UTF-8 path** (`utf8_bounds`): the bytes cut out are exactly the
+encoding of the character-indexed substring — always valid UTF-8, never an error. -/
+theorem substring_by_char_utf8 (s : List Char) (start : Int) (len : Option Nat) :
+    substringByChar false s start len = encode (substrChars s start len) :=
+  substringByChar_utf8 s start len
+
+/-- **`substring_by_char`, ASCII fast path** (`ascii_bounds`, taken when `array.is_ascii()`):
+byte arithmetic equals character arithmetic. -/
+theorem substring_by_char_ascii (s : List Char) (start : Int) (len : Option Nat)
+    (hs : isAsciiStr s = true) :
+    substringByChar true s start len = encode (substrChars s start len) :=
+  substringByChar_ascii s start len hs
+
+example : substringByChar false ['a', 'é', '€', 'b'] (-3) (some 2) = encode ['é', '€'] := by decide
+
+/-! ## length / concatenation -/
+
+/-- `concat_elements`: the concatenated bytes are the encoding of the concatenated strings
+(hence valid UTF-8). -/
+theorem concat_valid (a b : List Char) : concatModel a b = encode (a ++ b) := concatModel_eq a b
+
+/-- `bit_length` is 8 × `length` (the factor is read from the source on every run). -/
+theorem bit_length_eq (s : List Char) : bitLengthModel s = 8 * lengthModel s := by
+  rw [bitLengthModel_eq]; rfl
+
+theorem bit_length_view_eq (s : List Char) : bitLengthModelView s = 8 * lengthModel s := by
+  simp [bitLengthModelView, lengthModel, ArrowModel.Generated.C20.BIT_LENGTH_FACTOR_VIEW, Nat.mul_comm]
+
+/-- non-vacuity of the folding hypothesis: ASCII folding itself satisfies it -/
+example (p s : List Char) (hp : isAsciiStr p = true) (hs : isAsciiStr s = true) :
+    (classifyILike p true).eval asciiFoldEq s = ilikeAscii p s :=
+  ilike_ascii_fast_path asciiFoldEq (fun _ _ _ _ => rfl) p s hp hs
+
 end ArrowModel.C20
